@@ -187,7 +187,8 @@ class CombinedDataHandler:
             unexpected_units["county_fips"] = unexpected_units["geographic_unit_fips"].apply(
                 self._get_county_fips_from_geographic_unit_fips
             )
-        if "district" in aggregates:
+        # for district unit types every aggregate is computed per district, whether or not it was requested
+        if "district" in aggregates or "district" in self.geographic_unit_type:
             unexpected_units["district"] = unexpected_units["geographic_unit_fips"].apply(
                 self._get_district_from_geographic_unit_fips
             )
